@@ -2,12 +2,13 @@
 """second-round seeding prompt: like seed_prompt.py but lists the changes already used."""
 import json, sys, glob, os, subprocess
 pid, wt = sys.argv[1], sys.argv[2]
+K1, K2 = (sys.argv[3], sys.argv[4]) if len(sys.argv) > 4 else ("3", "4")
 base = subprocess.run(['python3', '/verif/tools/seed_prompt.py', pid, wt, '2'], stdout=subprocess.PIPE, text=True).stdout
 used = []
 for p in sorted(glob.glob('/verif/seeded/%s-*/meta.json' % pid)):
     m = json.load(open(p)); used.append("- %s (%s)" % (m.get('title'), ', '.join(m.get('files', []))))
 extra = ("\n\nIMPORTANT — this is a second round. The following changes were already produced for this property by an earlier round; "
          "produce mutants that are DIFFERENT in kind and code site from all of them (and from obvious variations of them):\n" + "\n".join(used) +
-         "\nWrite your outputs to the directories " + wt + "/../out-" + pid + "-3/ and " + wt + "/../out-" + pid + "-4/ (numbering continues from the first round). "
+         "\nWrite your outputs to the directories " + wt + "/../out-" + pid + "-" + K1 + "/ and " + wt + "/../out-" + pid + "-" + K2 + "/ (numbering continues from the first round). "
          "Every demo_cmd in meta.json MUST start with the `cp ../out-<id>-<k>/demo_test.go <destination> && ` step so that it can be run from a clean worktree as is.")
-print(base.replace("out-%s-k/" % pid, "out-%s-k/ (k = 3, 4 in this round)" % pid) + extra)
+print(base.replace("out-%s-k/" % pid, "out-%s-k/ (k = %s, %s in this round)" % (pid, K1, K2)) + extra)
